@@ -1,8 +1,10 @@
 /-
 C06  mktime: skipped local times are reported with their gap; results are in ascending order.
 
-Same scope as C05: PROVED for zones without a DST rule (`*_partial`); with DST rules the property rests
-on correspondence + oracles, and is false in the known-finding class F2.
+Same scope as C05: PROVED for zones without a DST rule (`*_partial`) and for zones with a DST rule that
+satisfies C04's hypotheses (`*_rule_partial`: table gaps, and the gaps opened by the rule's own start/end
+instants after the table, including the junction where the last table transition IS a rule instant);
+false in the known-finding class F2.
 A gap is opened by an *effective* table transition i (every one but a last transition that no rule
 follows): at UTC instant T = `instantOf z i` (C12: the instant count Tᵢ denotes) the clock jumps from
 offset a (`typeBefore`) to b (`typeAfter`), and the local second count c is in the gap iff T + a ≤ c < T + b.
@@ -10,6 +12,7 @@ offset a (`typeBefore`) to b (`typeAfter`), and the local second count c is in t
 import TzVerif.Model.Find
 import TzVerif.Spec.Zone
 import TzVerif.Proofs.Search
+import TzVerif.Proofs.SearchRule
 
 namespace TzVerif.C06
 open TzVerif.Model TzVerif.Proofs
@@ -42,6 +45,54 @@ theorem ascending_partial (y mo d h mi s ns : Int) (z : TimeZone) (rs : List Fou
     (hz : ZoneOK z) (hr : NoDstRule z) (hf : findDateTime y mo d h mi s ns z = .ok rs) :
     List.Pairwise (fun a b => instantOfFound a ≤ instantOfFound b) rs :=
   search_ascending y mo d h mi s ns z rs hz hr hf
+
+/-! zones with a DST rule -/
+
+/-- a reported gap is a table gap, or the gap of a rule start (std → dst) or end (dst → std) instant after the table -/
+theorem reported_gaps_are_real_rule_partial (y mo d h mi s ns : Int) (z : TimeZone) (a : AlternateTime) (rs : List Found)
+    (hz : ZoneOK z) (hr : z.extraRule = some (.alternate a)) (ha : RuleOK a)
+    (hf : findDateTime y mo d h mi s ns z = .ok rs) (b a' : DateTime) (hx : Found.skipped b a' ∈ rs) :
+    (∃ i, Effective z i ∧ GapAt z i (Spec.seconds y mo d h mi s) ∧
+        DateTime.fromTimespecAndLocal (instantOf z i) ns (typeBefore z i) = .ok b ∧
+        DateTime.fromTimespecAndLocal (instantOf z i) ns (typeAfter z i) = .ok a') ∨
+    (∃ y', ruleFrom z < Spec.startInstant a y' ∧ RuleGap (Spec.startInstant a y') a.std a.dst (Spec.seconds y mo d h mi s) ∧
+        DateTime.fromTimespecAndLocal (Spec.startInstant a y') ns a.std = .ok b ∧
+        DateTime.fromTimespecAndLocal (Spec.startInstant a y') ns a.dst = .ok a') ∨
+    (∃ y', ruleFrom z < Spec.endInstant a y' ∧ RuleGap (Spec.endInstant a y') a.dst a.std (Spec.seconds y mo d h mi s) ∧
+        DateTime.fromTimespecAndLocal (Spec.endInstant a y') ns a.dst = .ok b ∧
+        DateTime.fromTimespecAndLocal (Spec.endInstant a y') ns a.std = .ok a') :=
+  rule_gaps_sound y mo d h mi s ns z a rs hz hr ha hf b a' hx
+
+theorem every_rule_start_gap_reported_partial (y mo d h mi s ns : Int) (z : TimeZone) (a : AlternateTime) (rs : List Found)
+    (hz : ZoneOK z) (hr : z.extraRule = some (.alternate a)) (ha : RuleOK a)
+    (hf : findDateTime y mo d h mi s ns z = .ok rs) (y' : Int)
+    (hp : ruleFrom z < Spec.startInstant a y')
+    (hg : RuleGap (Spec.startInstant a y') a.std a.dst (Spec.seconds y mo d h mi s))
+    (hnn : 0 ≤ h ∧ 0 ≤ mi ∧ 0 ≤ s) :
+    ∃ b a', Found.skipped b a' ∈ rs ∧ b.unixTime = Spec.startInstant a y' ∧ b.localTimeType = a.std ∧ a'.localTimeType = a.dst :=
+  rule_gaps_complete_start y mo d h mi s ns z a rs hz hr ha hf y' hp hg hnn
+
+theorem every_rule_end_gap_reported_partial (y mo d h mi s ns : Int) (z : TimeZone) (a : AlternateTime) (rs : List Found)
+    (hz : ZoneOK z) (hr : z.extraRule = some (.alternate a)) (ha : RuleOK a)
+    (hf : findDateTime y mo d h mi s ns z = .ok rs) (y' : Int)
+    (hp : ruleFrom z < Spec.endInstant a y')
+    (hg : RuleGap (Spec.endInstant a y') a.dst a.std (Spec.seconds y mo d h mi s))
+    (hnn : 0 ≤ h ∧ 0 ≤ mi ∧ 0 ≤ s) :
+    ∃ b a', Found.skipped b a' ∈ rs ∧ b.unixTime = Spec.endInstant a y' ∧ b.localTimeType = a.dst ∧ a'.localTimeType = a.std :=
+  rule_gaps_complete_end y mo d h mi s ns z a rs hz hr ha hf y' hp hg hnn
+
+theorem every_table_gap_reported_rule_partial (y mo d h mi s ns : Int) (z : TimeZone) (a : AlternateTime) (rs : List Found)
+    (hz : ZoneOK z) (hr : z.extraRule = some (.alternate a)) (ha : RuleOK a)
+    (hf : findDateTime y mo d h mi s ns z = .ok rs) (i : Nat) (he : Effective z i)
+    (hg : GapAt z i (Spec.seconds y mo d h mi s)) :
+    ∃ b a', Found.skipped b a' ∈ rs ∧ b.unixTime = instantOf z i ∧ b.localTimeType = typeBefore z i ∧ a'.localTimeType = typeAfter z i :=
+  rule_table_gaps_complete y mo d h mi s ns z a rs hz hr ha hf i he hg
+
+theorem ascending_rule_partial (y mo d h mi s ns : Int) (z : TimeZone) (a : AlternateTime) (rs : List Found)
+    (hz : ZoneOK z) (hr : z.extraRule = some (.alternate a)) (ha : RuleOK a)
+    (hf : findDateTime y mo d h mi s ns z = .ok rs) :
+    List.Pairwise (fun p q => instantOfFound p ≤ instantOfFound q) rs :=
+  rule_search_ascending y mo d h mi s ns z a rs hz hr ha hf
 
 /-- … so that `earliest` / `latest` (first / last element, on the clock before / after for a gap) are the
     true extremes, and `unique` is present exactly when there is a single valid result and nothing else -/
